@@ -100,6 +100,10 @@ def upd_clauses(offsets, updaters, posb, amt, cur_a, cur_b):
                  f"and implies({updaters}[i].fn == 1, {posb}[i] + {amt}[i] <= {posb}[i + 1])))",
         "last": f"implies(len({offsets}) >= 1, {offsets}[len({offsets}) - 1] + {amt}[len({offsets}) - 1] == {cur_a} "
                 f"and implies({updaters}[len({offsets}) - 1].fn == 1, {posb}[len({offsets}) - 1] + {amt}[len({offsets}) - 1] <= {cur_b}))",
+        # global (transitive) forms of `links`: ranges are ordered in text_before and their images are ordered in text_after
+        "below": f"forall(lambda i: implies({rng}, {offsets}[i] + {amt}[i] <= {cur_a} and {posb}[i] + ite({updaters}[i].fn == 1, {amt}[i], 0) <= {cur_b}))",
+        "mono": f"forall(lambda i, j: implies(0 <= i and i < j and j < len({offsets}), {offsets}[i] + {amt}[i] <= {offsets}[j] "
+                f"and {posb}[i] + ite({updaters}[i].fn == 1, {amt}[i], 0) <= {posb}[j]))",
     }
 
 
@@ -144,7 +148,42 @@ contract("annotate.SpanUpdater.update",
     ensures={
         # the translation of plain offsets to source offsets stays within the source
         "in_range": "result is not None and 0 <= result and result <= self.len_b",
+        # the exact value: the range selected by the bisect variant, shifted (equal range) or replaced by its image (deleted range)
+        "value": "exists(lambda i: 0 <= i and i < len(self.offsets) and implies(i + 1 < len(self.offsets), "
+                 "ite(bisect is bisect_right, offset < self.offsets[i + 1], offset <= self.offsets[i + 1])) "
+                 "and (i == 0 or ite(bisect is bisect_right, self.offsets[i] <= offset, self.offsets[i] < offset)) "
+                 "and result == ite(self.updaters[i].fn == 1, offset + self.posb[i] - self.offsets[i], self.posb[i]))",
     })
+
+
+@spec("upd_post")
+def _upd_post(e, st, u, off, kind):
+    """the postcondition of SpanUpdater.update instantiated for the call update(u, off, bisect_<kind>) with the call's value F_update(...)
+    (functional contract): what any such call may assume.  Used to state lemmas over several calls."""
+    from pyvc.values import Ty
+    c = e.reg.contracts["annotate.SpanUpdater.update"]
+    k = SV(Ty("func"), None, tag=("builtin", "bisect_left" if kind.v.as_long() == 0 else "bisect_right"))
+    res = SV(INT, e.functional_app(st, "annotate.SpanUpdater.update", [u, off, k]))
+    bound = {"self": SV(OBJ("SpanUpdater"), u.v, u.none), "offset": off, "bisect": k}
+    pre = And(*[e.eval_spec(x, st, bound, None, None, c) for x in c.requires.values()])
+    post = And(*[e.eval_spec(x, st, bound, res, st, c) for x in c.ensures.values()])
+    return SV(BOOL, Implies(pre, post))
+
+
+@spec("upd_val")
+def _upd_val_a(e, st, u, off, kind):
+    from pyvc.values import Ty
+    k = SV(Ty("func"), None, tag=("builtin", "bisect_left" if kind.v.as_long() == 0 else "bisect_right"))
+    return SV(INT, e.functional_app(st, "annotate.SpanUpdater.update", [u, off, k]))
+
+
+UPD_U = "u is not None and " + " and ".join(f"({v})" for v in upd_clauses("u.offsets", "u.updaters", "u.posb", "u.amt", "u.len_a", "u.len_b").values())
+# C10, clause "the translation of plain offsets to source offsets is monotone": over two calls of update on one updater
+for _k1, _k2 in ((0, 0), (1, 1), (0, 1), (1, 0)):
+    lemma(f"update_monotone_{_k1}{_k2}", ["u:obj<SpanUpdater>", "o1:int", "o2:int"],
+          f"implies({UPD_U} and len(u.offsets) >= 1 and 0 <= o1 and " + ("o1 <= o2" if (_k1, _k2) != (1, 0) else "o1 < o2") + f" and o2 <= u.len_a "
+          f"and upd_post(u, o1, {_k1}) and upd_post(u, o2, {_k2}), upd_val(u, o1, {_k1}) <= upd_val(u, o2, {_k2}))", always=True)
+
 
 # ------------------------------------------------------------------------------------------------ html helpers (utils.py)
 wf_html = z3.Function("wf_html", z3.StringSort(), z3.BoolSort())
